@@ -106,7 +106,7 @@ def split31(g, dg):
                 Ktrace=np.einsum('ij...,ij...->...', gamu, K))
 
 
-def exact(metric, T, X, Y, Z, Lambda=0.0):
+def exact(metric, T, X, Y, Z, Lambda=0.0, kappa=KAPPA):
     """Everything at once: 4D curvature, 3+1 split, 3D curvature, matter
     T := (G + Lambda g)/kappa, E/B parts w.r.t. the normal."""
     g, dg, ddg = metric(T, X, Y, Z)
@@ -123,7 +123,7 @@ def exact(metric, T, X, Y, Z, Lambda=0.0):
     out["s_Ruddd"] = c3["Ruddd"]
     out["s_Ric"] = c3["Ric"]
     out["s_RS"] = c3["RS"]
-    out["Tdown"] = (c4["Ein"] + Lambda * g) / KAPPA
+    out["Tdown"] = (c4["Ein"] + Lambda * g) / kappa
     n = s["nup"]
     C = c4["Weyl"]
     out["E_n"] = np.einsum('b...,d...,abcd...->ac...', n, n, C)
